@@ -11,7 +11,8 @@ RULE = ("C14.prec/ops: for every operator arm of the expression printer: allowed
         "C14.escape: static text and quoted values reach the output through the HTML escapers, whose character classes cover "
         "`< \" &` (body) and `\" &` (quoted) with the right replacements. C14.prefix: every directive/prefix/attribute word the printer "
         "writes is one the parser's classifier recognises, and the event-prefix decision tree of the printer is the inverse of the "
-        "parser's prefix -> (catch, mut, capture) table. (Scope-stack mirror: see C05.mirror.)")
+        "parser's prefix -> (catch, mut, capture) table. C14.scope: a printer that adds scope names saves the stack height first and resets "
+        "it unconditionally after its children are printed. (Scope-stack mirror: see C05.mirror.)")
 EXPLANATION = ("Parser and printer are compared as sibling implementations of one grammar: operator tables, traversal completeness, "
                "attribute vocabulary and escaping classes are extracted from both and checked against each other and ECMA-262; the "
                "printer's output is never re-parsed.")
@@ -226,7 +227,14 @@ def escape_rules(ctx):
                     bad.append(s)
         obs.append(ob("C14.escape/sinks/text", not bad and n_sinks >= 2, ctx.where(f), "%d non-literal text sinks, all through escape_html_body" % n_sinks if not bad else "text written without HTML escaping: %s" % bad))
     q = [f for f in tc.fns if f.name == "write_str_name_quoted" and f.body]
-    okq = len(q) == 1 and "escape_html_quote" in " ".join(sir.expr_str(n) for n in sir.walk(q[0].body) if n.get("k") == "call")
+    okq = False
+    if len(q) == 1:
+        # the text handed to write_token is a local whose initialiser IS the escaper call (no unescaped alternative)
+        for n in sir.walk(q[0].body):
+            if n.get("k") == "mcall" and n["m"] in ("write_token", "write_str") and n["args"] and sir.strip_ref(n["args"][0]).get("k") != "lit":
+                nm = sir.root_expr_name(sir.strip_ref(n["args"][0]))
+                ini = [m.get("init") for m in sir.walk(q[0].body) if m.get("k") == "local" and m["pat"].get("name") == nm]
+                okq = bool(ini) and ini[0] is not None and ini[0].get("k") == "call" and (sir.call_name(ini[0]) or "").endswith("escape_html_quote")
     obs.append(ob("C14.escape/sinks/quoted", okq, "stringify/mod.rs", "quoted static values go through escape_html_quote: %s" % okq))
     return obs
 
@@ -360,6 +368,103 @@ def vocabulary_rules(ctx):
     return obs
 
 
+def scope_rules(ctx):
+    """the printer's scope-name stack: whatever an element's printer adds is removed before it returns, on every path"""
+    ob = ctx.ob
+    tc = ctx.tc
+    obs = []
+    fns = [f for f in tc.fns if f.body and "stringify" in f.module]
+    byname = {}
+    for f in fns:
+        byname.setdefault(f.name, []).append(f)
+
+    def calls(f):
+        out = []
+        for n in sir.walk(f.body):
+            if n.get("k") == "mcall":
+                out.append((n["m"], n))
+            elif n.get("k") == "call":
+                nm = sir.call_name(n)
+                if nm:
+                    out.append((nm.split("::")[-1], n))
+        return out
+
+    def direct_push(f):
+        return [n for n in sir.walk(f.body) if n.get("k") == "mcall" and n["m"] == "push" and sir.expr_str(n["recv"]).endswith("scope_names")]
+
+    def bracket(f):
+        """(saved local, index of save stmt, index of truncate stmt) at the top level of the fn body"""
+        st = f.body["stmts"]
+        saved = None
+        si = ti = None
+        for i, x in enumerate(st):
+            if x.get("k") == "local" and x.get("init") is not None and re.fullmatch(r"\w+\.scope_names\.len\(\)", sir.expr_str(x["init"]).replace(" ", "")) and x["pat"].get("k") == "p_ident":
+                saved, si = x["pat"]["name"], i
+            e = x.get("e") if x.get("k") == "expr" else None
+            if e is not None and e.get("k") == "mcall" and e["m"] == "truncate" and sir.expr_str(e["recv"]).endswith("scope_names") and saved and sir.expr_str(e["args"][0]) == saved:
+                ti = i
+            if e is not None and e.get("k") == "mcall" and e["m"] == "clear" and sir.expr_str(e["recv"]).endswith("scope_names"):
+                if si is None:
+                    saved, si = "<clear>", i
+                else:
+                    ti = i
+        return saved, si, ti
+
+    leaky = {"add_scope"}
+    changed = True
+    verdict = {}
+    while changed:
+        changed = False
+        for f in fns:
+            if f.name in leaky and f.name != "add_scope":
+                continue
+            adders = [(m, n) for m, n in calls(f) if m in leaky and m in byname] + [("push", n) for n in direct_push(f)]
+            if f.name == "add_scope" or not adders:
+                continue
+            saved, si, ti = bracket(f)
+            st = f.body["stmts"]
+            problems = []
+            if si is None or ti is None:
+                if f.name != "stringify_write":
+                    leaky.add(f.name)
+                    changed = True
+                    verdict[f.qual] = ("leaky", "adds scope names and leaves them to its caller")
+                    continue
+                problems.append("adds scope names but has no top-level `len()` .. `truncate()` (or clear .. clear) bracket")
+            else:
+                def top_index(n):
+                    for i, x in enumerate(st):
+                        if any(y is n for y in sir.walk(x)):
+                            return i
+                    return None
+                for m, n in adders:
+                    i = top_index(n)
+                    if i is None or not (si < i < ti):
+                        problems.append("`%s` is called outside the bracket" % m)
+                for n in sir.walk(f.body):
+                    if n.get("k") == "mcall" and n["m"] == "stringify_write":
+                        i = top_index(n)
+                        if i is not None and i >= ti and i > si:
+                            problems.append("children are printed after the scope stack was reset")
+                    if n.get("k") == "return" and not n.get("desugared"):
+                        i = top_index(n)
+                        if i is not None and si < i < ti:
+                            problems.append("explicit return between save and reset")
+            verdict[f.qual] = ("bracketed", problems)
+    n = 0
+    for q, (kind, pr) in sorted(verdict.items()):
+        f = [x for x in fns if x.qual == q][0]
+        if kind == "leaky":
+            obs.append(ob("C14.scope/helper/%s" % q, True, ctx.where(f), pr))
+        else:
+            n += 1
+            obs.append(ob("C14.scope/balanced/%s" % q, not pr, ctx.where(f), "; ".join(pr) if pr else "every scope name added while printing is removed by an unconditional top-level reset after the children are printed",
+                          witness=None if not pr else "a childless element that introduces scope names followed by a sibling that uses its own: the sibling's references print as the leaked names"))
+    if n < 2:
+        obs.append(ob("C14.floor/scope", False, "stringify/tag.rs", "only %d bracketed scope-adding printers found (floor 2)" % n))
+    return obs
+
+
 def run(ctx):
     obs = printer_rules(ctx)
     from rules.c12 import find_escaper, check_escaper
@@ -371,6 +476,7 @@ def run(ctx):
         obs.append(ctx.ob("C14.literal/anchor", False, "escape.rs", "string-literal emitter not found"))
     obs += escape_rules(ctx)
     obs += vocabulary_rules(ctx)
+    obs += scope_rules(ctx)
     n = sum(1 for o in obs if o["key"].startswith("C14.children/"))
     if n < 44:
         obs.append(ctx.ob("C14.floor/children", False, "stringify/expr.rs", "only %d variants analysed (floor 44)" % n))
